@@ -39,6 +39,9 @@ package gov
 // proposal with an outcome, by merging into the active parameters
 //@ func (ctrler *GovCtrler) applyProposals__1(prop)
 //@   requires prop != nil
+//@   requires prop.MajorOption != nil && prop.OptType == 257 ==> govjson_ok(content(prop.MajorOption.option))   [C15]
+//@   assert@call(Unmarshal,0): content($arg0) == content(prop.MajorOption.option)
+//@   assert@call(From,0): false                                                                                [C09,C15]
 //@   assumes cons_ok && ctrler != nil && ctrler.frozenLedger != nil && ctrler.paramsLedger != nil
 //@   modifies everything
 //@   assert@call(DelFinality,0): prop.ApplyingHeight <= height && $target == ctrler.frozenLedger              [C15]
@@ -58,6 +61,7 @@ package gov
 //@   allocates GovProposal, voteOption, Voter, uint256.Int, GovParams
 //@   ensures result == nil ==> ctx.Tx.Type == 4 || ctx.Tx.Type == 5                                          [C09]
 //@   ensures result == nil && ctx.Tx.Type == 4 ==> isvalidator(ctx.StakeHandler, content(ctx.Tx.From))       [C15]
+//@   ensures result == nil && ctx.Tx.Type == 4 && as(ctx.Tx.Payload, ptr(TrxPayloadProposal)).OptType == 257 ==> (forall i :: 0 <= i && i < len(as(ctx.Tx.Payload, ptr(TrxPayloadProposal)).Options) ==> govjson_ok(content(as(ctx.Tx.Payload, ptr(TrxPayloadProposal)).Options[i])))   [C15,C09]
 //@   ensures result == nil && ctx.Tx.Type == 4 ==> as(ctx.Tx.Payload, ptr(TrxPayloadProposal)).StartVotingHeight > ctx.Height && len(as(ctx.Tx.Payload, ptr(TrxPayloadProposal)).Options) > 0   [C15]
 //@   ensures result == nil && ctx.Tx.Type == 4 ==> as(ctx.Tx.Payload, ptr(TrxPayloadProposal)).ApplyingHeight >= as(ctx.Tx.Payload, ptr(TrxPayloadProposal)).StartVotingHeight + as(ctx.Tx.Payload, ptr(TrxPayloadProposal)).VotingPeriodBlocks   [C15]
 //@   ensures result == nil && ctx.Tx.Type == 5 ==> allocated(prop_at(ctrler.proposalLedger, lkey(content(as(ctx.Tx.Payload, ptr(TrxPayloadVoting)).TxHash)), ctx.Exec)) && has(prop_at(ctrler.proposalLedger, lkey(content(as(ctx.Tx.Payload, ptr(TrxPayloadVoting)).TxHash)), ctx.Exec).Voters, addrstr(content(ctx.Tx.From)))   [C15]
@@ -65,6 +69,7 @@ package gov
 //@   ensures result == nil && ctx.Tx.Type == 5 ==> prop_at(ctrler.proposalLedger, lkey(content(as(ctx.Tx.Payload, ptr(TrxPayloadVoting)).TxHash)), ctx.Exec).StartVotingHeight <= ctx.Height && ctx.Height <= prop_at(ctrler.proposalLedger, lkey(content(as(ctx.Tx.Payload, ptr(TrxPayloadVoting)).TxHash)), ctx.Exec).EndVotingHeight   [C15]
 //@   loop 0: modifies allof(GovParams), mem(uint256.Int)
 //@   loop 0: invariant checkGovParams != nil
+//@   loop 0: invariant forall i :: 0 <= i && i <= rangeindex ==> govjson_ok(content(txpayload#0.Options[i]))
 
 // ---- queries (C19, C06)
 //@ func (ctrler *GovCtrler) Query(req)
